@@ -71,17 +71,18 @@ func verifH_SrvHandlerOps() {
 	msgs := 0
 	attempts := 0
 	if verifBool("carrierBreaks") {
-		// the carrier fails from now on (scenario checked separately: the wire checks below assume delivery)
+		// headers go out, then the carrier fails: the first response is attempted and fails
+		// (scenario checked separately: the wire checks below assume delivery)
+		verifAssert(st.SendHeader(nil) == nil, "C02.send-header-accepted")
 		car.failSend, car.sendErr = true, errors.New("carrier broke")
-		for i := 0; i < 2; i++ {
-			err := st.SendMsg(&wrapperspb.BytesValue{Value: []byte{byte(i)}})
-			if i == 0 {
-				verifAssert(err != nil, "C04.send-on-a-broken-carrier-fails")
-			}
-			if !serverStreams && i == 1 {
-				verifCover("retry-after-failed-send")
-				verifAssert(err != nil && len(car.sent) == 0, "C16.second-send-refused-even-after-a-failed-first")
-			}
+		err1 := st.SendMsg(&wrapperspb.BytesValue{Value: []byte{1}})
+		verifAssert(err1 != nil, "C04.send-on-a-broken-carrier-fails")
+		tries := len(car.sentBy)
+		err2 := st.SendMsg(&wrapperspb.BytesValue{Value: []byte{2}})
+		if !serverStreams {
+			verifCover("retry-after-failed-send")
+			// a second send on a non-streaming side is refused, not handed to the carrier again
+			verifAssert(err2 != nil && len(car.sentBy) == tries, "C16.second-send-refused-even-after-a-failed-first")
 		}
 		return
 	}
@@ -383,4 +384,5 @@ func verifH_SrvBlocked() {
 		verifAssert(th != 0, "C03.no-carrier-send-on-the-loop-stack-blocked")
 	}
 	verifAssert(verifLiveGoroutines() == 0, "C14.blocked-stream-no-goroutine-left")
+	verifAssert(!verifMutexHeld(&st.writeMu) && !verifMutexHeld(&st.readMu) && !verifMutexHeld(&svr.mu), "C15.blocked-stream-locks-released")
 }
